@@ -238,6 +238,20 @@ class Fn:
                 else:
                     t=self.tmp(); binds.append("%s <- py_add %s %s ;; "%(t,acc,a)); acc=t
             return acc if acc is not None else "(VStr [])"
+        if (isinstance(e,(ast.ListComp,ast.GeneratorExp)) and len(e.generators)==1 and len(e.generators[0].ifs)==1 and isinstance(e.generators[0].target,ast.Tuple)
+                and len(e.generators[0].target.elts)==2 and all(isinstance(x,ast.Name) for x in e.generators[0].target.elts)):
+            # [ELT for a, b in ITER if COND]  (a generator expression is taken as the list it yields: ELT and COND are checked to be free of calls
+            # other than len, so nothing can observe when they are evaluated)
+            g=e.generators[0]
+            for part in (e.elt,g.ifs[0]):
+                for n in ast.walk(part):
+                    if isinstance(n,ast.Call) and not (isinstance(n.func,ast.Name) and n.func.id=="len"): raise Unsupported("call in filtered comprehension")
+            it=self.ex(g.iter,binds); items=self.tmp(); binds.append("%s <- py_iter %s ;; "%(items,it))
+            n1,n2=g.target.elts[0].id,g.target.elts[1].id
+            saved=self.vars; self.vars=self.vars+[x for x in (n1,n2) if x not in self.vars]
+            sc=[]; c=self.ex(g.ifs[0],sc); sub=[]; el=self.ex(e.elt,sub); self.vars=saved
+            t=self.tmp(); binds.append("%s <- py_for %s (fun x_ acc_ => p_ <- unpack2 x_ ;; let '(v_%s, v_%s) := p_ in %sif truthy %s then (%sNormal (acc_ ++ [%s])%%list) else Normal acc_) (@nil pyval) ;; "%(t,items,n1,n2,"".join(sc),c,"".join(sub),el))
+            return "(VList %s)"%t
         if isinstance(e,(ast.ListComp,ast.GeneratorExp)) and len(e.generators)==1 and not e.generators[0].ifs and isinstance(e.generators[0].target,ast.Tuple) and len(e.generators[0].target.elts)==2:
             g=e.generators[0]; it=self.ex(g.iter,binds); items=self.tmp(); binds.append("%s <- py_iter %s ;; "%(items,it))
             n1,n2=g.target.elts[0].id,g.target.elts[1].id
@@ -276,12 +290,20 @@ class Fn:
             k=self.mod.find_method(self.cls,f.attr)
             if k is not None and not self.mod.is_abstract(self.mod.classes[k]["methods"][f.attr]):
                 callee=self.mod.classes[k]["methods"][f.attr]
+                if self.mod.is_classmethod(callee):
+                    # a classmethod reads nothing but its class: called with the receiver as the class, it answers a plain value
+                    args=self.resolve_args(callee,e,binds,True); self.calls.add((k,f.attr))
+                    return self.call_gen(gname(k,f.attr),["v_"+f.value.id]+args,binds,False)
                 if self.mod.is_classmethod(callee) or f.value.id=="cls": raise Unsupported("classmethod call")
                 args=self.resolve_args(callee,e,binds,True); self.calls.add((k,f.attr))
                 return self.call_gen(gname(k,f.attr),["v_self"]+args,binds,True)
             if k is None:   # a field holding a function
                 fv=self.ex(f,binds); args=[self.ex(a,binds) for a in e.args]; t=self.tmp()
                 binds.append("%s <- py_call %s (VList [%s]) ;; "%(t,fv,";".join(args))); return t
+            if f.attr in getattr(self.mod,"method_oracles",()) and not e.keywords and f.value.id in self.vars:
+                # an abstract method (the subclass decides): uninterpreted, answered by the py_call parameter
+                args=[self.ex(a,binds) for a in e.args]; t=self.tmp()
+                binds.append("%s <- py_call (VFun (of_string %s)) (VList [%s]) ;; "%(t,cq(f.attr),";".join(["v_"+f.value.id]+args))); return t
             raise Unsupported("abstract method call "+f.attr)
         # <param>.<method>(...) where the parameter is known to hold an object of a class of this module (hint): as self.<method>(...)
         hints=getattr(self.mod,"param_classes",{}).get(self.fn.name,{})
@@ -447,6 +469,9 @@ class Fn:
                 return lib("py_format",o,args,kw)
             if f.attr=="get" and len(e.args)==1:
                 o=self.ex(f.value,binds); return lib("py_get",o,A(0))
+            if f.attr=="items" and not e.args and not e.keywords:
+                self.mod.need_lib2=True
+                x=self.ex(f.value,binds); return lib("py_items",x)
             if f.attr in ("lstrip","rstrip") and not e.args:
                 self.mod.need_lib2=True
                 x=self.ex(f.value,binds); return lib("py_"+f.attr,x)
@@ -615,7 +640,7 @@ def translate_module(path, pymod, wanted=None, oracles=(), xmods=None, external=
             t,_,_=E.pattern(pat,0); rx.append("Definition RX_%s : re := %s."%(nm,t))
         hdr_extra += ["Require Import Rx PyRe.", E.set_defs()] + rx
     if getattr(mod,"need_hash",False): hdr_extra.append("Require Import PyHash.")
-    if any(w in emitted_text for w in ("unpack3","py_try_ve","py_str_repeat","py_b2a_hex_encode","py_lstrip","py_rstrip","py_split_ws","py_stitch")): hdr_extra.append("Require Import PyLib2.")
+    if any(w in emitted_text for w in ("unpack3","py_try_ve","py_str_repeat","py_b2a_hex_encode","py_lstrip","py_rstrip","py_split_ws","py_stitch","py_items")): hdr_extra.append("Require Import PyLib2.")
     for r in requires: hdr_extra.append("Require Import %s."%r)
     for k,(xm,cm) in mod.xmods.items(): hdr_extra.append("Require %s."%cm)
     for cm in sorted(set(v[1] for v in mod.xfuncs.values())|set(v[2] for v in mod.field_classes.values())): hdr_extra.append("Require %s."%cm)
